@@ -45,6 +45,12 @@ CLAIMS = {
          "signaller (however often it signals) is excluded and every other machine index receives exactly one Signal, the signaller receiving one only if "
          "a machine answered during the round; two or more distinct signallers reach every index exactly once; the delivery list never contains a duplicate "
          "and no pending signal survives the call. The log is tied to the code by the hook log comparison.", "DESIGN.md section 4, C09"),
+
+ "C10": ("PARTIAL. Proved: C10_step_frame / C10_decrement_frame (a step of machine j leaves runtime and pending action of every other machine and all "
+         "accounting fields untouched) and C10_accounting_projection (machine i's counters and the shared accounting are the same function of the reports in the "
+         "combined run and in the solo run on the projected history, for every history). Not proved: equality of the action streams (needs a two-run simulation "
+         "over transition); that statement is decided by the differential: deterministic machines next to arbitrary neighbours vs alone, implementation and model, "
+         "action streams compared call by call.", "DESIGN.md section 4, C10"),
 }
 
 NOT_YET = "check not built yet (in progress; planned per DESIGN.md section 7)"
